@@ -99,7 +99,8 @@ def run(ctx):
                                "expected": _expected_view(case["exp"]), "tlc_cfg": "Formula_MC_%s.cfg" % sl})
         if sel:
             ctx.sample({"slice": sl, "txt": sel[0]["in"]["txt"], "exp": _expected_view(sel[0]["exp"])}, cap=8)
-    ctx.exhaustive = True
+    # TLC enumerates each slice completely; the quick tier replays a stratified sample of the cases
+    ctx.exhaustive = not ctx.quick
 
     # ---- code -> spec: seeded generator beyond the bounds, judged by TLC
     n = 3000 if ctx.quick else 40000
